@@ -99,6 +99,7 @@ func needles(ip net.IP) []string {
 }
 
 func verifC17(a *vh.Args) {
+	only := replayCase(a)
 	log.SetLevel(log.ErrorLevel) // what main() sets by default
 	logClientIP = false
 	realStdout = os.Stdout
@@ -168,10 +169,13 @@ func verifC17(a *vh.Args) {
 					if n%a.ShardN != a.ShardI {
 						continue
 					}
+					id := fmt.Sprintf("outcome=%s;client=%v;site=%s.%s#%d;error=%s", oc, cip, site.conn, site.op, site.idx, er.name)
+					if only != "" && id != only {
+						continue // replay: run exactly the recorded case
+					}
 					if !e.Case() {
 						goto done
 					}
-					id := fmt.Sprintf("outcome=%s;client=%v;site=%s.%s#%d;error=%s", oc, cip, site.conn, site.op, site.idx, er.name)
 					_ = capf.Truncate(0)
 					_, _ = capf.Seek(0, 0)
 					caddr := &net.TCPAddr{IP: cip, Port: 54321}
